@@ -222,3 +222,4 @@ _extend('C14', 'ADDED (units K-undo revised, F-cascade): the undo of a change wo
         'every referencing child row with its multiplicity. Self-referencing foreign keys (referential actions changing the very table a DELETE / UPDATE is being applied to) are NOT covered: observed defect, DESIGN 9b.')
 _extend('C10', 'ADDED (unit K-uqprobe): the key with which UPDATE probes a CREATE UNIQUE INDEX index for the new row is built from the columns the index names, prefix-truncated like the stored keys, in definition order (fix 51980647: it was not truncated).')
 _extend('C10', 'ADDED (unit K-uqcreate): CREATE UNIQUE INDEX is refused exactly when two rows of the table share a NULL-free key of the index (fix 7890b305: it used to succeed over duplicates).')
+_extend('C10', 'ADDED (unit U-stmtkeys): the statement-level duplicate check of a multi-row UPDATE files the NULL-free, prefix-truncated keys of each new row under their slot and refuses the statement exactly when one is already filed by an earlier row (fix 215562c9: prefix indexes were skipped).')
